@@ -32,6 +32,18 @@ Round trips (Q): AD d -> chord -> angle within 2^-51 d + cond(2^-51, cos(d/2)); 
 and 2^-50 + cond(2^-50, cos dec).  RA range: 0 <= ra < float(2 pi) and ra < 2 * pi_lo (40-digit
 rational lower bound of pi, Proofs/SphereP.v:pi_enclosure).  Order: sorted distinct inputs give
 non-decreasing chords / angles (exact rational comparison, Qleb).
+
+Input representations (repr_checks): the positions / distances / vectors are also handed over as float32 and
+float16 arrays (values on that grid), big-endian arrays, integer / bool arrays, long double, every memory layout
+(strided and column views, Fortran order, negative strides, read-only, unaligned), python lists / tuples of
+python floats, ints and numpy scalars, pandas objects, and a single point / distance as a 1-d object, scalar or
+0-d array.  Every accepted representation must give, bit for bit, the float64 array that the same values give as
+a contiguous native float64 array; a difference is reported as a disagreement and decided by the interval goal of
+the differing rows on the OBSERVED output (signature c14-accuracy:<fn>/input-<class>), and the goal is generated
+for at least one case per function and class anyway.  The values a container holds are compared with the source
+values in Coq (c14_repr_case: equal as rationals, source of its format, held of binary64); Props/C14.v proves that
+promotion of binary16 / binary32 / integers to binary64 is the identity on values (and that narrowing is not).
+A representation the implementation refuses (exception) is counted, not reported.
 """
 import math
 import os
@@ -52,6 +64,7 @@ TRUSTED = [
     "real-number axioms; the exact list printed for SphereP.pi_enclosure is recorded in coverage.interval_axioms each run",
     "libm / numpy trigonometric kernels are exercised, not modelled: accuracy is certified pointwise on the sampled inputs only",
     "numpy np.average / np.column_stack / broadcasting (mean of the 3-d vectors) are exercised, not modelled",
+    "numpy dtype conversion (astype / asarray to float64) is exercised, not modelled; the model says what it must be on values (identity)",
 ]
 ASSUMPTIONS = [
     "float bounds, u = 2^-53, cond(d,s) = 4d/max(s,sqrt d): to_3d 6u|x|,6u|y|,4u|z| (+2^-300); AngularDistances.to_3d 4u|c|; "
@@ -61,10 +74,15 @@ ASSUMPTIONS = [
     "the float bound is checked pointwise with certified enclosures, not proved for all inputs (libm has no specification)",
     "mean: positive weights; a mean vector shorter than 2^-20 (horizontal part for RA) is degenerate and not compared",
     "inputs: right ascension in [0, 2 pi] (a few outside for to_3d), declination in [-pi/2, pi/2] as floats, chord lengths in [0, 2], angles in [0, pi]",
+    "input representations: the quantifier is over values; a value given as float16 / float32 / integer / python number is the real "
+    "number it denotes (exactly a binary64 value, Props/C14.v) and the float64 bounds apply to it unchanged; representations the "
+    "implementation refuses with an exception are outside what is compared",
 ]
 RULE = ("cases = (function, exact float inputs); distinct by that tuple; non-trivial when the input lies in a region the "
         "property names (pole, RA wrap, tiny or near-antipodal separation, near-degenerate mean) or is a generic point "
-        "whose result is not exactly representable (at least one trigonometric evaluation contributes rounding)")
+        "whose result is not exactly representable (at least one trigonometric evaluation contributes rounding); "
+        "representation cases = (function, representation of every operand, exact values), non-trivial always "
+        "(dtype / byte order / layout / container other than a contiguous native float64 array)")
 
 U = Fraction(1, 2 ** 53)
 TINY = Fraction(1, 2 ** 300)
@@ -1226,7 +1244,7 @@ def repr_checks(ctx):
     rng = ctx.rng
     cases = repr_cases(ctx)
     samples, terms, tinfo, refused = [], [], [], []
-    per_class_goal = {}
+    per_class_goal, per_class_diff = {}, {}
     budget = ctx.n(1, 4)
     for idx, c in enumerate(cases):
         c.case = ("repr", idx)
@@ -1237,10 +1255,14 @@ def repr_checks(ctx):
             refused.append(dict(c.replay(), refused=c.refused))
             continue
         rows = []
+        k = (c.fn, c.cls)
         if c.diff:
             ctx.disagree("c14-repr:%s" % c.fn, c.case, {"representation": c.describe(), "differs": c.diff, "replay": c.replay()})
-            rows = c.differing_rows()[:2] or [0]
-        k = (c.fn, c.cls)
+            # decide by the accuracy goal of the differing rows whether the property fails on this input
+            # (the first few cases of every function and class; the probes always)
+            if c.kind == "probe" or per_class_diff.get(k, 0) < 3 * budget:
+                per_class_diff[k] = per_class_diff.get(k, 0) + 1
+                rows = c.differing_rows()[:2] or [0]
         if c.kind == "probe" or per_class_goal.get(k, 0) < budget:
             per_class_goal[k] = per_class_goal.get(k, 0) + (c.kind != "probe")
             nrow = 1 if c.fn == "mean" else len(c.rows["a"])
